@@ -30,6 +30,7 @@ package ech
 //@ pure cfgFields(o ConfigSpec, b []byte) bool = int(o.Version) == 0xfe0d && int(o.ID) == int(b[4]) && int(o.KEM) == be16(b, 5) &&
 //@     bytesEq(o.PublicKey, window(b, 9, cfgPkLen(b))) && 4*len(o.CipherSuites) == cfgCsLen(b) &&
 //@     forall(j, 0, len(o.CipherSuites), int(o.CipherSuites[j].KDF) == cfgSuiteKDF(b, j) && int(o.CipherSuites[j].AEAD) == cfgSuiteAEAD(b, j), trig(o.CipherSuites[j])) &&
+//@     forall(j, 0, len(o.CipherSuites), int(o.CipherSuites[j].KDF) == cfgSuiteKDF(b, j) && int(o.CipherSuites[j].AEAD) == cfgSuiteAEAD(b, j), trig(cfgSuiteKDF(b, j))) &&
 //@     int(o.MaximumNameLength) == int(b[cfgMnlOff(b)]) && bytesEq(o.PublicName, window(b, cfgPnOff(b), cfgPnLen(b)))
 // what ConfigSpec.Bytes must produce
 //@ pure cfgBodySize(c ConfigSpec) int = 5 + len(c.PublicKey) + 2 + 4*len(c.CipherSuites) + 2 + len(c.PublicName) + 2
@@ -223,8 +224,9 @@ package ech
 // Key selection (draft-ietf-tls-esni 7.1): a key is a candidate for an outer hello when its config parses, its config id
 // is the one the client named and it lists the client's cipher suite.
 //@ pure cfgHasSuite(cfg []byte, kdf int, aead int) bool = exists(j, 0, cfgCsLen(cfg)/4, cfgSuiteKDF(cfg, j) == kdf && cfgSuiteAEAD(cfg, j) == aead)
-//@ pure keyCand(k Key, h *clientHello) bool = cfgValid(k.Config) && int(k.Config[4]) == int(h.echExt.ConfigID) &&
-//@     cfgHasSuite(k.Config, int(h.echExt.CipherSuite.KDF), int(h.echExt.CipherSuite.AEAD))
+// (cfgCand is a function symbol with a defining axiom rather than a macro: invariants quantifying over the keys stay small)
+//@ purerec cfgCand(cfg []byte, id int, kdf int, aead int) bool = cfgValid(cfg) && int(cfg[4]) == id && cfgHasSuite(cfg, kdf, aead)
+//@ pure keyCand(k Key, h *clientHello) bool = cfgCand(k.Config, int(h.echExt.ConfigID), int(h.echExt.CipherSuite.KDF), int(h.echExt.CipherSuite.AEAD))
 // keySetup: identity of the HPKE context that SetupReceipient derives for key k and outer hello h
 // (KEM from the config, KDF/AEAD from the client's suite, the key's private key, info = "tls ech\0" || config, the client's enc).
 //@ pure keySetupOk(k Key, h *clientHello) bool = hsetupOk(be16(k.Config, 5), int(h.echExt.CipherSuite.KDF), int(h.echExt.CipherSuite.AEAD), hprivOf(be16(k.Config, 5), cid(k.PrivateKey)), cid(cat("tls ech\x00", k.Config)), cid(h.echExt.Enc))
